@@ -45,6 +45,7 @@ import (
 	"crypto/sha256"
 	"encoding/hex"
 	"fmt"
+	"hash/fnv"
 	"os"
 	"path/filepath"
 	"sort"
@@ -504,10 +505,19 @@ func (x *world) observe() string {
 	if rs.TriggeredTimeoutPrecommit {
 		ttp = 1
 	}
-	out := fmt.Sprintf("%d/%d/%d lr=%d lb=%s vr=%d vb=%s p=%s pb=%s pbp=%s cr=%d ttp=%d tick=%d/%d/%d%s q=[%s] dec=[%s] sent=%d v=R%d[%s]",
+	out := fmt.Sprintf("%d/%d/%d lr=%d lb=%s vr=%d vb=%s p=%s pb=%s pbp=%s cr=%d ttp=%d tick=%d/%d/%d%s q=[%s] dec=[%s] sent=%d v=",
 		h, rs.Round, rs.Step, rs.LockedRound, nb(rs.LockedBlock), rs.ValidRound, nb(rs.ValidBlock), prop,
 		nb(rs.ProposalBlock), pbp, rs.CommitRound, ttp, ti.Height, ti.Round, ti.Step, arm,
-		strings.Join(q, ","), strings.Join(dec, ","), x.sent, rs.Votes.Round(), strings.Join(vs, " "))
+		strings.Join(q, ","), strings.Join(dec, ","), x.sent)
+	vstr := fmt.Sprintf("R%d[%s]", rs.Votes.Round(), strings.Join(vs, " "))
+	// the kit cuts outputs at 300 characters: longer lines carry a digest (FNV-1a 32) of the vote sets
+	if len(out)+len(vstr) <= 290 {
+		out += vstr
+	} else {
+		hsh := fnv.New32a()
+		hsh.Write([]byte(vstr))
+		out += fmt.Sprintf("#%d:%d", hsh.Sum32(), len(vstr))
+	}
 	// the proposer table the model was given must be what the node computes
 	if int(h) <= len(x.tab) && rs.Round < len(x.tab[h-1]) && rs.Validators != nil {
 		idx, _ := rs.Validators.GetByAddress(rs.Validators.GetProposer().Address)
